@@ -200,6 +200,10 @@ class OptimizedChoice(Expression):
         """Return a regex pattern matching all collected choices."""
         return build_optimized_pattern(self.choices)
 
+    def is_order_preserving(self) -> bool:
+        """True if the regex chooses the same alternative as the ordered choice."""
+        return is_order_preserving(self.choices)
+
 
 class OptimizedChoiceRepeat(OptimizedChoice):
     """An optimized `("a" | "b")*`."""
@@ -255,6 +259,54 @@ def build_optimized_pattern(choices: list[ChoiceChoice], repeat: str = "") -> st
             return f"(?:{parts[0]}){repeat}"
         return parts[0]
     return "(?:" + "|".join(parts) + ")" + repeat
+
+
+def is_order_preserving(choices: list[ChoiceChoice]) -> bool:
+    """True if `build_optimized_pattern` keeps the meaning of the ordered choice.
+
+    The pattern lists multi-character literals first (case sensitive, then case
+    insensitive) and everything that matches exactly one character last. Moving
+    an alternative in front of an earlier one changes the result only if both
+    can match at the same position with different lengths.
+    """
+
+    def is_single(choice: ChoiceChoice) -> bool:
+        return not isinstance(choice, ChoiceLiteral) or len(choice.value) == 1
+
+    def accepts(choice: ChoiceChoice, ch: str) -> bool:
+        if isinstance(choice, ChoiceLiteral):
+            if choice.case == ChoiceCase.INSENSITIVE:
+                return ch in (choice.value.upper(), choice.value.lower())
+            return ch == choice.value
+        if isinstance(choice, ChoiceRange):
+            lo, hi = sorted((ord(choice.start), ord(choice.end)))
+            return lo <= ord(ch) <= hi
+        return bool(re.match(choice.expression.pattern, ch))  # type: ignore
+
+    for j, later in enumerate(choices):
+        if is_single(later):
+            continue
+        assert isinstance(later, ChoiceLiteral)
+        head = later.value[:1]
+        if later.case == ChoiceCase.INSENSITIVE:
+            first = {ch for ch in (head, head.upper(), head.lower()) if len(ch) == 1}
+        else:
+            first = set(head)
+        for earlier in choices[:j]:
+            if is_single(earlier):
+                # A one character alternative that used to win now loses.
+                if not later.value or any(accepts(earlier, ch) for ch in first):
+                    return False
+            elif (
+                isinstance(earlier, ChoiceLiteral)
+                and earlier.case == ChoiceCase.INSENSITIVE
+                and later.case == ChoiceCase.SENSITIVE
+                and len(earlier.value) != len(later.value)
+            ):
+                a, b = earlier.value.lower(), later.value.lower()
+                if a.startswith(b) or b.startswith(a):
+                    return False
+    return True
 
 
 def _optimize_char_class(singles: list[str], ranges: list[tuple[str, str]]) -> str:
